@@ -38,7 +38,7 @@ def report(c, res, deaths, items, fam="desc"):
                 e2 = (r2.get(sc) or [{}])[0]
                 if sc not in d2 and e2.get("agree", True) and e2.get("alloc", 0) <= ALLOC_LIMIT + 64 * e2.get("len", 0):
                     raise vf.FrameworkError("disagreement not reproduced")
-            c.report(key, first, {"case": case, "event": ev})
+            c.report(key, first, dict({"case": case, "event": ev}, **c.rp(fam, items[sc])))
     for sc, d in deaths.items():
         case = json.loads(items[sc])
         c.report("death:%s:%s" % (d["kind"], (d.get("stderr") or "").strip()[-60:]), "process %s while decoding" % d["kind"], {"case": case, "death": d})
